@@ -307,7 +307,8 @@ class World:
                 warnings.simplefilter("ignore")
                 return fem.SolidBodyGravity(f, gravity=self._load_vector(it["gravity"]), density=it.get("density", 1.0))
         if t == "PointLoad":
-            return fem.PointLoad(f, self._points(it["points"]), values=np.asarray(it["values"], dtype=float))
+            kw = {"axisymmetric": True} if it.get("axisymmetric") else {}
+            return fem.PointLoad(f, self._points(it["points"]), values=np.asarray(it["values"], dtype=float), **kw)
         if t in ("MultiPointConstraint", "MultiPointContact"):
             pts = self._points(it["points"])
             cp = int(self._points(it["centerpoint"])[0])
